@@ -170,6 +170,11 @@ func (ti *treeInfo) structural(o *Obs, afterRestart bool, poolKnown bool) []stri
 	}
 	if !o.StateOpens {
 		bad = append(bad, "state: the head's state root cannot be opened")
+	} else if len(hc) > 0 {
+		hb := hc[len(hc)-1]
+		if o.BalA != hb.BalA || o.BalB != hb.BalB {
+			bad = append(bad, fmt.Sprintf("state-content: balances read from the head's state (%s, %s) differ from the block's post-state (%s, %s)", o.BalA, o.BalB, hb.BalA, hb.BalB))
+		}
 	}
 	onChain := map[uint64]string{0: ti.t.Genesis}
 	for _, b := range hc {
